@@ -524,6 +524,9 @@ func (m *Machine) changeType(v Value, t types.Type) Value {
 }
 
 func (m *Machine) nilCheck(st *State, fr *Frame, ins ssa.Instruction, p *Ptr, what string) {
+	if st.pure {
+		return // ghost code is total: reads through nil yield unconstrained values
+	}
 	if p.Ref.IsNum() {
 		if p.Ref.num.Sign() == 0 {
 			m.oblige(st, fr, "safe.nil", fmt.Sprintf("%s.%d", what, m.ordinal(fr.fn, ins, "")), m.ctx.F, m.safeTags(), "nil pointer dereference")
